@@ -139,7 +139,7 @@ def run_case(case, workdir):
             g = [lo[d] + loc[d] for d in range(3)]
             pt = [ref2.geo_lo[d] + (g[d] + 0.5) * ref2.dx[lv][d] for d in range(3)]
             for tag, sel, fidx in sels:
-                if not (isinstance(sel, list) and isinstance(sel[0], str)):
+                if not tag.startswith("names"):          # (by tag: the list object itself may have been tampered with)
                     continue
                 st, val = call(lambda: pck2[sel](*pt))
                 rec.exe([dh, "second_plotfile", b, tag], nontrivial=True, trans=2)
